@@ -56,6 +56,17 @@ def bounds(tier):
     return {"depth": 3 if tier == "quick" else 4, "quantiles": 9}
 
 
+DEEP = [
+    "x = 1\ny = 0\nwhile true:\n    x = x/2\n    if x == 0:\n        y = 1\n    end\nend\n",
+    "x = 1\nk = 0\nwhile x > 0:\n    x = x/2\n    k = k + 1\nend\n",
+    "x = 1\ny = 0\nwhile true:\n    x = x/4\n    if x <= 0:\n        y = 1\n    end\n    if x < 1/1000000:\n        y = y + 2\n    end\nend\n",
+    "x = 0\ny = 0\nwhile x < 50:\n    x = x + 1\n    y = y + x\nend\n",
+    "x = 1\ny = 0\nwhile true:\n    x = 2*x\n    if x >= 1000000000000:\n        y = y + 1\n    end\nend\n",
+    "x = 1\nz = 1\ny = 0\nwhile true:\n    x = x/2\n    z = z/2 + x/2\n    if z > x:\n        y = y + 1\n    end\n    if z == x:\n        y = y - 1\n    end\nend\n",
+    "c = 0\nx = 1\ny = 0\nwhile true:\n    x = x/2\n    if x == 0 || x < 0:\n        c = Bernoulli(1/2)\n        y = y + c\n    end\nend\n",
+]
+
+
 def cases(tier, seed):
     depth = 3 if tier == "quick" else 4
     out = []
@@ -65,6 +76,10 @@ def cases(tier, seed):
             continue
         out.append({"input": {"kind": "paths", "text": t}, "depth": depth,
                     "two_samples": len(out) < 40 or "{" in t.split("while")[0] or "Bernoulli" in t.split("while")[0] or len(out) % 5 == 0})
+    # long runs of (almost) deterministic programs: values that only arise after many iterations (comparisons between
+    # numbers that come very close, guards that turn false late, large magnitudes)
+    for t in DEEP:
+        out.append({"input": {"kind": "paths", "text": t}, "depth": 60 if tier == "quick" else 120, "two_samples": False})
     from ..dists import sampler_grid
 
     for fam, params in sampler_grid(tier):
